@@ -17,6 +17,7 @@ readable from it).  An access of n bytes through pointer value B + off needs
 off >= 0 and ext(B) - off - n >= 0, proved by lin.Prover from the guard facts
 that dominate the access.
 """
+import os
 from . import facts, cfg, cond
 from .facts import strip
 from .lin import Lin, Prover, const, atom, atom_str
@@ -97,6 +98,28 @@ OUT_BUFFERS = {
     ("Tins::DNS::compose_name", 1): 256,
     ("Tins::DNS::inline_convert_v4", 1): 16,
 }
+
+
+_HDR_TEXT = {}
+
+
+def name_in_headers(db, name):
+    """does the identifier occur anywhere under include/ (textual; a function that does not is not part of the API)"""
+    import re as _re
+    if not name or not _re.match(r"^[A-Za-z_]\w*$", name):
+        return True
+    key = db.repo
+    if key not in _HDR_TEXT:
+        txt = []
+        for root, _, files in os.walk(os.path.join(db.repo, "include")):
+            for fn_ in files:
+                try:
+                    with open(os.path.join(root, fn_), errors="replace") as fh:
+                        txt.append(fh.read())
+                except OSError:
+                    pass
+        _HDR_TEXT[key] = "\n".join(txt)
+    return _re.search(r"\b%s\b" % _re.escape(name), _HDR_TEXT[key]) is not None
 
 
 def radiotap_option_sizes(db, cache={}):
@@ -244,6 +267,7 @@ class FnBounds(object):
         self.requirements = []  # for summaries: (param index, Lin need over p0 atoms)
         self.field_writes = 0
         self.state_requirements = []
+        self.req_nodes = {}      # (requirement, text) -> id of the obligation node that raised it
         self.init_member = {}
         for i in f.get("inits", []):
             if i.get("member") and i.get("e"):
@@ -1457,6 +1481,7 @@ class FnBounds(object):
                 if all(not G_.mentions(lambda a: a[0] not in ("call", "fld", "p0")) for G_ in goals):
                     for G_ in goals:
                         self.state_requirements.append((G_, text))
+                        self.req_nodes[(repr(G_), text)] = node["id"]
                     self.record(node, kind, text, "ok", "exported as a requirement on the callers: %s" %
                                 " and ".join("%s >= 0" % G_ for G_ in goals))
                     return
@@ -1482,6 +1507,8 @@ class FnBounds(object):
             return True
         if f["id"].endswith(".cpp") and f["file"].startswith("src/"):
             return True      # internal linkage (id carries the file suffix)
+        if not f.get("rec") and f["file"].startswith("src/") and not name_in_headers(self.db, f.get("name") or ""):
+            return True      # free function defined in a source file and named in no public header: only that file calls it
         return False
 
     STATE_REQ_CACHE = {}
@@ -1498,7 +1525,11 @@ class FnBounds(object):
                 b = FnBounds(self.db, g, depth=self.depth + 1)
                 if b.can_export_state():
                     b.run()
-                    res = (list(b.state_requirements), g)
+                    # a requirement raised by one visit of a site whose final verdict is not `ok` (a later loop iteration
+                    # left the linear language: the site is reported undecided there) does not speak for the site
+                    res = ([r_ for r_ in b.state_requirements
+                            if b.req_nodes.get((repr(r_[0]), r_[1])) is None or
+                            getattr(b.obls.get(b.req_nodes[(repr(r_[0]), r_[1])]), "verdict", "ok") == "ok"], g)
             except Exception:
                 res = None
         FnBounds.STATE_REQ_CACHE[key] = res
